@@ -47,7 +47,7 @@ PROPS = {
     "C06": dict(modules=["Emu8086.Props.C06"], runs=[("l2", "jumpx"), ("l2", "jump")], gen=["Arch", "ILiterals", "Jumps"],
                 rule="L2 jumpx: EVERY jump mnemonic of the interpreter x all 32 settings of CF/PF/ZF/SF/OF x 4 settings of the other flag bits "
                      "(x CX lattice + random for JCXZ/LOOP*); jump: random jumps/calls/rets/ints; non-trivial = outcome other than plain NEXT or CX changed"),
-    "C07": dict(modules=["Emu8086.Props.C07"], runs=[("l2", "string"), ("l2", "rep")], gen=["Arch", "ILiterals"],
+    "C07": dict(modules=["Emu8086.Props.C07"], runs=[("l2", "string"), ("l2", "rep"), ("l4", "strings")], gen=["Arch", "ILiterals"],
                 rule="L2 string: single steps of every string instruction x width x DF x prefix on adversarial DS/ES/SI/DI; rep: the REPEAT protocol "
                      "driven to completion (the driver's loop) for every mnemonic x width x DF x prefix x CX in 0..64 (+255, 300; thorough also 4095, 32768, 65535), "
                      "with aliasing DS:SI/ES:DI and runs of equal bytes; non-trivial = CX != 0 or a state change"),
@@ -60,7 +60,7 @@ PROPS = {
                      "forward jumps, bounded LOOPs, calls of calls, start in the middle, code after hlt) executed by the REAL binary; the executed-instruction "
                      "trace, final registers and memory (verification hook) and stdout must equal the model's run loop; L3 progs: random whole programs through "
                      "the real assembler (label/procedure indices, source map); non-trivial = more than one instruction executed / program accepted"),
-    "C10": dict(modules=["Emu8086.Props.C10"], runs=[("l3", "shapes"), ("l3", "progs"), ("l4", "shapes")], gen=["Arch", "ILiterals", "PPGrammar"],
+    "C10": dict(modules=["Emu8086.Props.C10"], runs=[("l3", "shapes"), ("l3", "progs"), ("l4", "shapes"), ("l4", "diag")], gen=["Arch", "ILiterals", "PPGrammar"],
                 rule="shapes: EVERY code-emitting alternative of the CURRENT assembler grammar x every spelling of its mnemonic table x sampled operands "
                      "(generated from the grammar on each run); L3 = real Preprocessor vs model (byte-identical lines); L4 = the same programs executed by the real "
                      "binary: the real DataParser / Interpreter / PrintParser judge every emitted line (any 'Internal Error' is a violation); non-trivial = accepted program"),
